@@ -19,6 +19,15 @@ def main():
     seed = int(os.environ.get('VERIF_SEED', '0') or 0)
     tier = a.tier if a.tier in ('quick', 'thorough') else 'quick'
     os.environ.setdefault('PYTHONHASHSEED', '0')
+    import logging
+    import signal
+    logging.disable(logging.WARNING)
+
+    def on_alarm(signum, frame):
+        print('check %s exceeded its wall-clock limit (exit 2, not a violation)' % a.pid)
+        os._exit(2)
+    signal.signal(signal.SIGALRM, on_alarm)
+    signal.alarm(int(os.environ.get('VERIF_TIMEOUT', '900' if tier == 'quick' else '7200')))
     import common
     mod = importlib.import_module('props.' + a.pid.lower())
     chk = common.Check(a.pid, tier, seed)
